@@ -1608,12 +1608,15 @@ FLOCAL_RULES = {"h": ["barycentre", "trapezoidal", "simpson", "newton-cotes-clos
 def gen_flocal_cfg(rng):
     shape = rng.choice(["line", "quad", "quad", "tria", "tria"])
     dim, fam = SHAPES[shape]
-    kind = rng.choice(["mass", "lapl", "force"])
+    kind = rng.choice(["mass", "mass", "lapl", "force", "force", "dudv"])
+    if kind == "dudv":
+        kind = "dudv%d" % rng.randrange(dim * dim)
     sp = rng.choice(["L1", "L2"])
     level = rng.randint(0, {"line": 3, "quad": 1, "tria": 1}[shape]) if sp == "L1" else rng.randint(0, 1 if shape != "tria" else 0)
     h = F(1, 2 ** level) if fam == "h" else F(1, 2 ** (level + 1))
     moves = []
-    if shape != "quad" and rng.random() < 0.7:      # moved triangles / intervals stay affine, moved quads do not
+    # moved triangles / intervals stay affine; moved quadrilaterals are multilinear: identity and force only
+    if (shape != "quad" or (kind in ("mass", "force") and level >= 1)) and rng.random() < 0.7:
         for _ in range(rng.randint(1, 3)):
             moves.append((rng.randrange(64), [F(rng.randint(-5, 5), 40) * h for _ in range(dim)]))
     rule = rng.choice(FLOCAL_RULES[fam])
@@ -1631,8 +1634,22 @@ def flocal_line(g, fe_out):
     if not mesh_valid(g["dim"], g["fam"], r["verts"], r["cells"]):
         return None
     geo = " ".join("%d %s" % (len(c), " ".join(fs(x) for v in c for x in r["verts"][v])) for c in r["cells"])
-    return "flocal %s %s GEO %s %s %s %s %d %d %s" % (g["shape"], fe_cfg_tokens(g), g["kind"], g["tsp"], g["rule"],
-                                                    fmt_qlist(g["cv"]), g["dim"], len(r["cells"]), geo)
+    # claim of exactness (per-variable degree on hypercubes incl. the determinant polynomial, total degree on simplices);
+    # the model evaluates the decidable hypotheses of C16.local_integral_exact(_multilinear) and must confirm the claim
+    k = DEG[g["tsp"]]
+    degf = Poly.from_coefs(g["dim"], g["cv"]).degree()
+    rdeg = {"barycentre": 1, "trapezoidal": 1, "simpson": 3, "newton-cotes-closed:2": 1, "newton-cotes-closed:3": 3,
+            "newton-cotes-closed:4": 3, "newton-cotes-closed:5": 5, "lauffer-degree-2": 2}[g["rule"]]
+    ex = 1 if (g["fam"] == "h" and g["dim"] == 2 and cells_moved(g["dim"], g["fam"], g["level"], r["verts"])) else 0
+    if g["kind"] == "mass":
+        need = 2 * k + ex
+    elif g["kind"] == "force":
+        need = k + degf + ex
+    else:
+        need = 2 * k if g["fam"] == "h" else 2 * k - 2
+    return "flocal %s %s GEO %s %s %s %s %d %d %s XP %d" % (g["shape"], fe_cfg_tokens(g), g["kind"], g["tsp"], g["rule"],
+                                                          fmt_qlist(g["cv"]), g["dim"], len(r["cells"]), geo,
+                                                          1 if rdeg >= need else 0)
 
 
 def oracle_flocal(case, out):
@@ -1663,17 +1680,18 @@ def oracle_flocal(case, out):
                 return "local matrix is not square"
             for i in range(n):
                 for j in range(n):
-                    if vals[i * n + j] != vals[j * n + i]:
+                    if kind in ("mass", "lapl") and vals[i * n + j] != vals[j * n + i]:
                         return "local matrix of a symmetric form is not symmetric"
-                if kind == "lapl" and sum(vals[i * n:(i + 1) * n]) != 0:
-                    return "local Laplace matrix does not annihilate constants"
-            if kind == "mass" and deg >= 2 * k:
+                if kind != "mass" and sum(vals[i * n:(i + 1) * n]) != 0:
+                    return "local matrix of an operator with constants in its kernel does not annihilate constants"
+            if kind == "mass" and deg >= 2 * k + (1 if (fam == "h" and dim == 2) else 0):   # (+1: safe for moved quads)
                 if dim == 1:
                     vol = abs(V[1][0] - V[0][0])
                 elif fam == "s":
                     vol = abs((V[1][0] - V[0][0]) * (V[2][1] - V[0][1]) - (V[1][1] - V[0][1]) * (V[2][0] - V[0][0])) / 2
                 else:
-                    vol = abs((V[1][0] - V[0][0]) * (V[2][1] - V[0][1]) - (V[1][1] - V[0][1]) * (V[2][0] - V[0][0]))
+                    pg = [V[0], V[1], V[3], V[2]]
+                    vol = abs(sum(pg[i][0] * pg[(i + 1) % 4][1] - pg[(i + 1) % 4][0] * pg[i][1] for i in range(4))) / 2
                 if sum(vals) != vol:
                     return "entries of the local mass matrix sum to %s, the cell volume is %s" % (sum(vals), vol)
         return None
@@ -2059,7 +2077,8 @@ def main(argv):
         vlib.Stream("local", flocal, [binary], vlib.driver_cmd(PROP), oracle=oracle_flocal, nontrivial=lambda c: True,
                     describe=lambda c: ["shape:" + c.split()[1], "kind:" + c.split()[c.split().index("GEO") + 1],
                                         "space:" + c.split()[c.split().index("GEO") + 2],
-                                        "rule:" + c.split()[c.split().index("GEO") + 3]],
+                                        "rule:" + c.split()[c.split().index("GEO") + 3],
+                                        "exactness-hypotheses-confirmed-by-model" if c.split()[-1] == "1" else "no-exactness-claim"],
                     signature=signature, env=env),
         vlib.Stream("history", hist, [binary], vlib.driver_cmd(PROP), oracle=oracle_hist, nontrivial=lambda c: True,
                     describe=lambda c: ["route:" + ("classic" if c.split()[0] == "hist" else "job"), "shape:" + c.split()[1]],
